@@ -177,8 +177,9 @@ def simulate(c, groups, rnd):
                         st["lost"].append("rdata.valid pulsed while rdata.ready was low (cycle %d)" % t)
                     pending_r = False
             if gi >= len(groups):
-                tail += 1
-                if not queue and tail > 100:
+                busy = prev is not None and (o_cv or o_wv or queue or pending_w is not None or pending_r)
+                tail = 0 if busy else tail + 1
+                if tail > 100:
                     break
             if t % 60 == 0:
                 p_cmd = rnd.choice([0.2, 0.7, 1.0]); lat = rnd.choice([0, 3, 9])
